@@ -19,7 +19,7 @@ PROPERTY = "C08"
 
 META = {
     "bounds": {
-        "quick": "12 placement patterns (shadowing, fallback, isolation, sibling reuse, forward references, depth-3 nesting, qualified exports before/after/inside blocks) x 4 scope kinds x 3 definition kinds (label, =, :=), rename twins and unrelated-definition twins; start address and every constant value symbolic",
+        "quick": "14 placement patterns (shadowing, fallback, isolation, sibling reuse, forward references, depth-3 nesting, qualified exports before/after/inside blocks) x 4 scope kinds x 3 definition kinds (label, =, :=), rename twins and unrelated-definition twins; start address and every constant value symbolic",
         "thorough": "same plus VERIF_SEED-drawn 600 random scope trees (depth <= 3, <= 5 scopes, names a,b)",
     },
     "outside": ["scope trees beyond the bound", "duplicate definitions of a name in one scope", "qualified names with more than one dot (not expressible in the source language)", "references with inferred-width instructions (C02)"],
@@ -85,6 +85,18 @@ def patterns():
                 out.append((f"depth3/{K}-{K2}/{dk}", [g.d("a", "eq"), g.s(K, [g.s(K2, [R("a")]), g.d("a", dk)]), R("a")]))
                 g = Gen()
                 out.append((f"depth3-inner-def/{K}-{K2}/{dk}", [g.d("a", "eq"), g.s(K, [g.s(K2, [g.d("a", dk), R("a")]), R("a")])]))
+    # macro arguments that are names spelled like the macro's own parameters (swapped, forward, shadowed)
+    for dk in DEFKINDS:
+        for dk2 in DEFKINDS:
+            g = Gen()
+            body = [R("lo"), R("hi")]
+            if dk2 == "label":
+                # an argument may refer to a LABEL defined later (constants are evaluated in order)
+                out.append((f"macro-arg-names/swapped-forward/{dk}-{dk2}", [g.d("lo", dk), ("scope", "macro", "pair", body, [("lo", "hi", ("name", "hi")), ("hi", "lo", ("name", "lo"))]), g.d("hi", dk2)]))
+            g = Gen()
+            out.append((f"macro-arg-names/swapped/{dk}-{dk2}", [g.d("lo", dk), g.d("hi", dk2), ("scope", "macro", "pair", body, [("lo", "hi", ("name", "hi")), ("hi", "lo", ("name", "lo"))])]))
+            g = Gen()
+            out.append((f"macro-arg-names/in-block/{dk}-{dk2}", [g.d("lo", dk), g.s("block", [g.d("hi", dk2), ("scope", "macro", "pair2", [R("lo"), R("hi")], [("lo", "hi", ("name", "hi")), ("hi", "lo", ("name", "lo"))])])]))
     for dk in DEFKINDS:
         g = Gen()
         out.append((f"export-after/{dk}", [g.s("named", [g.d("a", dk), R("a")], "ns"), R("ns.a")]))
